@@ -294,6 +294,15 @@ class VN(Problem):
             self._walrus(env, s.value, nid)
             for t in s.targets:
                 self._assign_target(env, t, v, nid, single=True)
+            # X = Cls(..., field=value): the constructor's keyword arguments initialise the fields of the new object
+            if isinstance(s.value, ast.Call) and s.value.keywords:
+                cs = self.c.cg.site_of.get(s.value)
+                if cs is not None and cs.kind == "ctor":
+                    for t in s.targets:
+                        if isinstance(t, ast.Name):
+                            for k in s.value.keywords:
+                                if k.arg:
+                                    env[f"{t.id}.{k.arg}"] = self.val(k.value, state, nid)
             return env
         if isinstance(s, ast.AnnAssign):
             if s.value is not None:
